@@ -42,6 +42,11 @@ EXTRA = [
     '<xsl:value-of select="substring(\'aAbBaA\', count(preceding::*) mod 6 + 1, 1)"/></xsl:for-each>|<xsl:for-each select="//*">'
     '<xsl:sort select="substring(\'aAbBaA\', count(preceding::*) mod 6 + 1, 1)" case-order="upper-first" order="descending"/>'
     '<xsl:value-of select="substring(\'aAbBaA\', count(preceding::*) mod 6 + 1, 1)"/></xsl:for-each></co>',
+    # string literals used as numbers and as booleans, numeric literals used as strings: whatever a compiled expression converts
+    # lazily and keeps (in the shared stylesheet) is first converted by the threads
+    '<sl><xsl:for-each select="//*"><xsl:value-of select="count(*) + \'1.5\'"/>,<xsl:value-of select="\'7\' * 2 - \'0.25\'"/>,'
+    '<xsl:if test="count(*) &lt; \'2\'">y</xsl:if><xsl:if test="\'3\' &gt; count(@*)">z</xsl:if><xsl:value-of select="concat(12.5, 1 div 8, -0.75)"/>'
+    '<xsl:value-of select="substring(\'abcdef\', \'2\', \'3\')"/>;</xsl:for-each></sl>',
 ]
 POOL = c13.OBSERVERS + EXTRA
 D2 = '<r xmlns:q="urn:q"><b i="1"/><b i="2" q:j="x">t</b><b i="3"/><!--c--></r>'
